@@ -136,8 +136,14 @@ def case_pq_summary(ctx, inp):
     if not all(w > 0 for w in weights):
         ctx.fail("percentiles_summary: a weight is not positive", observed=weights)
     # model: positions recovered from the picked values (first occurrence in the sorted data), exact percentiles
-    if all(v in d for v in vals):
-        pos = [d.index(v) for v in vals]
+    if all(v in d for v in vals) and _nondecreasing(vals) and vals[-1] == d[-1]:
+        # a non-decreasing choice of positions that explains the picked values (hypotheses of percentiles_summary_contract)
+        pos, cur = [], 0
+        for i, v in enumerate(vals):
+            cur = len(d) - 1 if i == len(vals) - 1 else d.index(v, cur)
+            pos.append(cur)
+        if pos[0] != 0 or not _nondecreasing(pos) or not all(a < b for a, b in zip(qs, qs[1:])):
+            ctx.fail("percentiles_summary: positions do not run from 0 / percentiles not strictly increasing", observed=[pos, list(qs)])
         fr = [Fraction(float(q)) for q in qs]
         den = 1
         for f in fr:
